@@ -14,6 +14,11 @@ pub(crate) use loom::{
 #[cfg(not(feature = "loom"))]
 pub(crate) use core::sync::atomic::*;
 
+// An explicit import shadows the glob above: with the feature on, the crate's
+// atomics are the reporting wrappers.
+#[cfg(all(feature = "verif-hooks", not(feature = "loom")))]
+pub(crate) use crate::verif_hooks::{AtomicU32, AtomicU64, AtomicUsize};
+
 #[cfg(feature = "loom")]
 pub(crate) use loom::sync::atomic::*;
 
